@@ -20,6 +20,7 @@ type gen struct {
 	names        []string // names (relative to dst) that exist already or are created by earlier entries
 	syms         []string // those of them that are symbolic links
 	files        []string // those of them that are regular files
+	ghosts       []string // names an earlier entry NAMED without creating them (ancestors of skipped-kind entries)
 	adv          int      // percentage of adversarial choices in this archive
 	cnt          int
 	maskOverride int // -1 = none
@@ -374,10 +375,82 @@ func (g *gen) regName(s string) string {
 	return s
 }
 
+// noteGhost records the proper ancestors of a name that an entry mentioned without creating anything.
+func (g *gen) noteGhost(name string) {
+	c := strings.Trim(name, "/")
+	if c == "" || strings.Contains(c, "..") || strings.HasPrefix(name, "/") || strings.Contains(c, "//") || strings.Contains(c, "./") {
+		return
+	}
+	parts := strings.Split(c, "/")
+	for k := 1; k < len(parts); k++ {
+		g.ghosts = append(g.ghosts, strings.Join(parts[:k], "/"))
+	}
+}
+
+// ghostScenario: an entry of a kind the tar extractor does not materialise (fifo, character / block device, contiguous
+// file) NAMES a nested path whose parents do not exist (sometimes: do exist) and creates nothing; then a symbolic or hard
+// link entry takes the name of one of those parents; then entries below that name.  Anything that remembers "this
+// directory was looked at / will exist" from the first entry is wrong by the third.  zip has no skipped kinds: there
+// the first entry is left out (a link, then entries below it).
+func (g *gen) ghostScenario(fk, out string) {
+	r := g.r
+	g.cnt++
+	top := fmt.Sprintf("g%d", g.cnt)
+	dirs := []string{top}
+	for k, d := 0, r.Intn(3); k < d; k++ {
+		dirs = append(dirs, dirs[len(dirs)-1]+"/"+hx.Pick(r, []string{"p", "q", "a"}))
+	}
+	deepest := dirs[len(dirs)-1]
+	if r.Chance(1, 5) { // the sibling case: the parent exists
+		g.entry("d", top, g.dmode()|0o700, 0, 0, 0, "")
+		g.note(top, false)
+	}
+	if !g.zip {
+		for k, m := 0, r.Range(1, 2); k < m; k++ {
+			kind := hx.Pick(r, []string{"o", "c", "b", "n"})
+			n := 0
+			if kind == "n" {
+				n = r.Range(0, 40)
+			}
+			g.entry(kind, deepest+"/"+hx.Pick(r, []string{"x", "fifo", "dev"}), 0o644, r.Intn(256), n, n, "")
+		}
+		g.noteGhost(deepest + "/x")
+	}
+	at := hx.Pick(r, dirs) // the ancestor whose name the link takes
+	switch {
+	case g.zip || r.Chance(3, 4):
+		g.entry("s", at, 0o777, 0, 0, 1, hx.Pick(r, []string{out, out, "../outside", "/tmp/" + placeholder + "/outside", "."}))
+		g.note(at, true)
+	default: // a hard link (to a file made just before, or to the outside sentinel)
+		if r.Bool() {
+			g.entry("r", "gsrc", g.fmode(), 1, 3, 3, "")
+			g.noteFile("gsrc")
+			g.entry("l", at, 0o644, 0, 0, 0, "gsrc")
+		} else {
+			g.entry("l", at, 0o644, 0, 0, 0, "../outside/victim")
+		}
+	}
+	for k, m := 0, r.Range(1, 3); k < m; k++ {
+		below := at + "/" + hx.Pick(r, []string{"y", "evil", "victim", "z/y", "new/deep/y"})
+		if k == 0 && len(dirs) > 1 && r.Bool() {
+			below = deepest + "/y" // the very directory the skipped entry named
+		}
+		g.entry(hx.Pick(r, []string{fk, fk, fk, "d", "s"}), below, g.fmode(), 3, 4, 1<<20, "t")
+	}
+	g.entry(fk, "after", g.fmode(), 3, 2, 2, "")
+}
+
 func (g *gen) randomEntry() {
 	r := g.r
 	nm := g.name()
 	seed := r.Intn(256)
+	if len(g.ghosts) > 0 && r.Chance(1, 5) { // a link takes a name that was only mentioned so far, then an entry below it
+		at := hx.Pick(r, g.ghosts)
+		g.entry("s", at, 0o777, seed, 0, 1, g.symTarget())
+		g.note(at, true)
+		g.entry(g.fileKind(), at+"/"+hx.Pick(r, []string{"y", "evil", "z/y"}), g.fmode(), seed, 3, 3, "")
+		return
+	}
 	v := r.Intn(100)
 	if g.zip {
 		switch {
@@ -475,7 +548,13 @@ func (g *gen) randomEntry() {
 		if k == "n" {
 			n = r.Range(0, 600)
 		}
+		if r.Bool() { // at a fresh nested path: its ancestors are named, not created
+			nm = g.fresh() + "/" + hx.Pick(r, comps)
+		}
 		g.entry(k, g.regName(nm), 0o644, seed, n, n, "")
+		if k != "g" {
+			g.noteGhost(g.regName(nm))
+		}
 	default:
 		if r.Intn(100) < g.adv {
 			// seed 0: a block of 0xff (bad checksum); seed 1: the stream ends 100 bytes into the header
@@ -491,7 +570,9 @@ func (g *gen) scenario() {
 	r := g.r
 	fk := g.fileKind()
 	out := hx.Pick(r, []string{"../outside", "/tmp/" + placeholder + "/outside", "../dst-evil", ".."})
-	switch r.Intn(19) {
+	switch r.Intn(22) {
+	case 19, 20, 21:
+		g.ghostScenario(fk, out)
 	case 12: // a symbolic link (also at depth), then entries beneath it two and more levels down
 		ln := hx.Pick(r, []string{"l", "a/l", "a/b/l"})
 		g.entry("s", ln, 0o777, 0, 0, 1, out)
